@@ -48,9 +48,6 @@ use verif_harness::world::*;
 
 // ---------------------------------------------------------------- known classes
 const K_ISSUANCE: &str = "type-issuance-pool";
-const K_AGED: &str = "pooled-input-ages-past-window";
-const K_ZEROGT: &str = "zero-key-ticket-passes-screen";
-const K_LEFTOUT: &str = "left-out-transaction-carried-the-work";
 
 type Rt = tokio::runtime::Runtime;
 fn bo<F: Future>(rt: &Rt, f: F) -> F::Output {
@@ -99,6 +96,10 @@ struct RoundSpec {
     /// a second transaction spending an input of a pooled transaction is put straight into
     /// Mempool.transactions (past the intake): Block::create's double-spend detection must fire
     inject_conflict: bool,
+    /// a transaction spending an output that the next block rebroadcasts is put straight into
+    /// Mempool.transactions (past the intake and the re-validation, which both refuse it):
+    /// Block::create must leave it out and recompute the consensus values
+    inject_aged: bool,
     /// the second chain [A', B'] on the tip's parent replaces the tip; A' spends the input of a
     /// transaction pooled just before (after `items`)
     fork: bool,
@@ -199,6 +200,7 @@ struct Rig {
     key_blocks: BTreeMap<u64, u64>,
     /// signature of a transaction injected past the intake in this round
     injected: Option<saito_core::core::defs::SaitoSignature>,
+    injected_aged: Option<saito_core::core::defs::SaitoSignature>,
     /// the last own block that both nodes accepted (as handed over) and the model's view of its parent
     last_ok: Option<(String, Block)>,
     /// the producer's ConsensusThread
@@ -298,6 +300,7 @@ impl Rig {
             history: vec![g.clone()],
             key_blocks: BTreeMap::new(),
             injected: None,
+            injected_aged: None,
             last_ok: None,
             thread,
             via_thread: false,
@@ -937,6 +940,25 @@ impl Rig {
         (coq, findings, log)
     }
 
+    /// puts a transaction that spends an output of the block the next block rebroadcasts straight
+    /// into Mempool.transactions
+    fn do_inject_aged(&mut self, log: &mut Vec<String>) {
+        for payer in 2..6usize {
+            let f: Vec<Slip> = self.free(payer, true).into_iter().filter(|sl| sl.amount > 100_000).collect();
+            if let Some(sl) = f.first().cloned() {
+                self.used.insert(Rig::key_of(&sl));
+                let mut tx = self.build_transfer(&sl, payer, 900, 1);
+                tx.generate(&self.prod.pk, 0, 0);
+                self.injected_aged = Some(tx.signature);
+                self.prod.mempool.transactions.insert(tx.signature, tx);
+                self.prod.mempool.rebuild_utxo_map();
+                self.stat("pool-item:aged-spend-injected-past-the-intake");
+                log.push(format!("{{\"op\":\"spend-of-output-due-for-rebroadcast-injected-into-Mempool.transactions\",\"input\":\"{}:{}:{} amount {}\"}}", sl.block_id, sl.tx_ordinal, sl.slip_index, sl.amount));
+                return;
+            }
+        }
+    }
+
     // ------------------------------------------------------------ blocks of other producers
     fn needs_gt(node: &Node, parent: SaitoHash) -> bool {
         !node.blockchain.is_golden_ticket_count_valid(parent, false, false, false)
@@ -1253,6 +1275,10 @@ impl Rig {
         if spec.inject_conflict {
             self.do_inject(&mut log);
         }
+        self.injected_aged = None;
+        if spec.inject_aged {
+            self.do_inject_aged(&mut log);
+        }
         self.apply_gt(spec.gt, &mut log);
 
         let tip = self.tip();
@@ -1260,9 +1286,9 @@ impl Rig {
         let hb = self.params.heartbeat;
         let ts: u64 = (tip.timestamp as i64 + spec.gap).max(0) as u64;
         let gt_tx: Option<Transaction> = self.prod.mempool.golden_tickets.get(&tip.hash).map(|(t, _)| t.clone());
-        // since fix e0300b2 bundle_block goes on without a ticket that does not solve the tip
+        // since fixes e0300b2 / 6a5c788 bundle_block goes on without a ticket that Block::validate would refuse
         let gt_eff: Option<Transaction> = match &gt_tx {
-            Some(t) if gt_solves(&t.data, &tip) => Some(t.clone()),
+            Some(t) if gt_valid(&t.data, &tip) => Some(t.clone()),
             _ => None,
         };
         let value = offset_value(&self.prod.pk, &tip.hash);
@@ -1373,11 +1399,9 @@ impl Rig {
         let stake_coq = self.coq_opt_tx(&stake_pred);
 
         let mut gt_tbl: Vec<(u64, bool)> = vec![];
-        let mut gt_screen_tbl: Vec<(u64, bool)> = vec![];
         if let Some(t) = &gt_tx {
             let a = self.atx(t);
             gt_tbl.push((a.id, gt_valid(&t.data, &tip)));
-            gt_screen_tbl.push((a.id, gt_solves(&t.data, &tip)));
         }
         let gt_zero_key = match &gt_tx {
             Some(t) => gt_solves(&t.data, &tip) && !gt_valid(&t.data, &tip),
@@ -1397,8 +1421,10 @@ impl Rig {
             .iter()
             .flat_map(|t| t.from.iter().filter(|s| s.amount > 0 && s.block_id + gp < tip.id + 1).map(|s| format!("{}:{}:{} amount {}", s.block_id, s.tx_ordinal, s.slip_index, s.amount)))
             .collect();
-        if !aged_pool.is_empty() {
+        if !aged_pool.is_empty() && self.injected_aged.is_none() {
+            // the window invariant of the pool (intake bb88717 + re-validation df3ca14)
             self.stat("pool-holds-input-older-than-window");
+            findings.push((format!("the pool holds a transaction whose input the next block {} cannot spend any more: {:?}", tip.id + 1, aged_pool), None));
         }
         let clash_pool: Vec<u64> = pool_txs
             .iter()
@@ -1500,12 +1526,6 @@ impl Rig {
                     let mut causes: Vec<&'static str> = vec![];
                     if pool_has_issuance {
                         causes.push(K_ISSUANCE);
-                    }
-                    if !aged_pool.is_empty() {
-                        causes.push(K_AGED);
-                    }
-                    if gt_zero_key {
-                        causes.push(K_ZEROGT);
                     }
                     if causes.is_empty() {
                         findings.push((what, None));
@@ -1626,8 +1646,12 @@ impl Rig {
                 order = abs[start..k].iter().map(|a| a.sig).collect();
                 // stake prediction check
                 if let Some(sp) = &stake_pred {
-                    if !fin.transactions.iter().any(|t| t.signature == sp.signature) {
-                        self.stat("stake-prediction:differs");
+                    if self.prod.blockchain.social_stake_requirement != 0 {
+                        if fin.transactions.iter().any(|t| t.signature == sp.signature) {
+                            self.stat("stake-prediction:same");
+                        } else {
+                            self.stat("stake-prediction:differs");
+                        }
                     }
                 }
                 // --- cv of the producer and of the second node
@@ -1647,8 +1671,7 @@ impl Rig {
                     if a.ty == TransactionType::GoldenTicket {
                         if !gt_tbl.iter().any(|(i, _)| *i == a.id) {
                             gt_tbl.push((a.id, gt_valid(&t.data, &tip)));
-                            gt_screen_tbl.push((a.id, gt_solves(&t.data, &tip)));
-                        }
+                                        }
                     }
                 }
                 let atr_ids: Vec<u64> = abs.iter().filter(|a| a.ty == TransactionType::ATR).map(|a| a.id).collect();
@@ -1848,21 +1871,12 @@ impl Rig {
                     causes.push(K_ISSUANCE);
                 }
 
-                // a pooled transaction whose input has left the window since it was pooled (the pool is
-                // re-validated against the utxoset only): it does not validate in the block
-                if !aged_pool.is_empty() && !invalid_in_block.is_empty() {
-                    causes.push(K_AGED);
-                }
-                if gt_zero_key && block_gt_invalid {
-                    causes.push(K_ZEROGT);
-                }
-                // fix 1214e31 leaves out pooled transactions that collide with a rebroadcast, after the
-                // gate has counted their routing work
-                let left_out = pool_txs.iter().filter(|t| !fin.transactions.iter().any(|b| b.signature == t.signature)).count();
-                // (its only symptom is the missing work: any other difference between header and
-                // recomputed values is a different matter)
-                if !aged_pool.is_empty() && left_out > 0 && fin.total_work < work_needed && cached_work >= work_needed && diffs.len() == 1 {
-                    causes.push(K_LEFTOUT);
+                if let Some(sig) = self.injected_aged {
+                    let carried = fin.transactions.iter().any(|t| t.signature == sig);
+                    self.stat(&format!("injected-aged-spend:{}", if carried { "carried" } else { "left-out" }));
+                    if carried {
+                        findings.push(("Block::create did not leave out a pooled spend of an output the block rebroadcasts".to_string(), None));
+                    }
                 }
                 if outcome == Outcome::Split {
                     findings.push((format!("the two nodes disagree on the produced block: producer {:?}, second node {:?}", r1, r2), None));
@@ -1962,6 +1976,11 @@ impl Rig {
             self.stat("own-stake-spends-output-due-for-rebroadcast");
         }
 
+        if let Some(sig) = self.injected_aged.take() {
+            if self.prod.mempool.transactions.remove(&sig).is_some() {
+                self.prod.mempool.rebuild_utxo_map();
+            }
+        }
         if let Some(sig) = self.injected.take() {
             // take the injected transaction out again so that the scenario can go on
             // (the staking transaction that a failed create hands back goes with it: a pool that holds a
@@ -1986,7 +2005,7 @@ impl Rig {
         let key_block_tbl: Vec<(u64, u64)> = self.key_blocks.iter().map(|(k, b)| (*k, *b)).collect();
         self.key_blocks.clear();
         let coq = format!(
-            "mkRC ({}) ({}) {} {} {} {} {} ({}) ({}) {} {} {} {} {} {} {} {} {}",
+            "mkRC ({}) ({}) {} {} {} {} {} ({}) ({}) {} {} {} {} {} {} {} {}",
             view,
             pool,
             self.it.get(&self.prod.pk.to_vec()),
@@ -1998,7 +2017,6 @@ impl Rig {
             cv_v,
             gal::list(&valid_tbl.iter().map(|(i, b)| format!("({}, {})", i, gal::boolean(*b))).collect::<Vec<_>>()),
             gal::list(&gt_tbl.iter().map(|(i, b)| format!("({}, {})", i, gal::boolean(*b))).collect::<Vec<_>>()),
-            gal::list(&gt_screen_tbl.iter().map(|(i, b)| format!("({}, {})", i, gal::boolean(*b))).collect::<Vec<_>>()),
             gal::list(&key_block_tbl.iter().map(|(k, b)| format!("({}, {})", k, b)).collect::<Vec<_>>()),
             gp,
             hchain_tbl,
@@ -2195,6 +2213,7 @@ fn random_spec(rig: &Rig, plan: &Plan, rng: &mut Rng, round: usize) -> RoundSpec
     // other producers: the second node confirms the pool, or a two-block branch replaces the tip
     let inject_conflict = rng.chance(1, 40);
     let via_thread = rng.chance(1, 6);
+    let inject_aged = !inject_conflict && rng.chance(1, 30);
     let mut peer_block = false;
     let mut peer_own = false;
     let mut fork = false;
@@ -2215,7 +2234,7 @@ fn random_spec(rig: &Rig, plan: &Plan, rng: &mut Rng, round: usize) -> RoundSpec
             _ => {}
         }
     }
-    RoundSpec { via_thread, inject_conflict, peer_own, peer_block, fork, items2, items, gt, gap, label }
+    RoundSpec { inject_aged, via_thread, inject_conflict, peer_own, peer_block, fork, items2, items, gt, gap, label }
 }
 
 fn scripted_spec(rig: &Rig, plan: &Plan, round: usize) -> Option<RoundSpec> {
@@ -2231,12 +2250,12 @@ fn scripted_spec(rig: &Rig, plan: &Plan, round: usize) -> Option<RoundSpec> {
         // the payout multiplier: large fees, tiny outputs looping, ticket every other block
         0 => {
             let items = (2..6usize).map(|p| Item::Transfer { payer: p, fee: 20_000, hops: 1, biggest: true }).collect();
-            Some(RoundSpec { via_thread: false, inject_conflict: false, peer_own: false, peer_block: false, fork: false, items2: vec![], items, gt: if round % 2 == 1 { GtSpec::Valid } else { GtSpec::None }, gap: big, label: "dust-profile".to_string() })
+            Some(RoundSpec { inject_aged: false, via_thread: false, inject_conflict: false, peer_own: false, peer_block: false, fork: false, items2: vec![], items, gt: if round % 2 == 1 { GtSpec::Valid } else { GtSpec::None }, gap: big, label: "dust-profile".to_string() })
         }
         // an invalid golden ticket once the difficulty is positive
         1 => {
             let gt = if tip.difficulty >= 2 { GtSpec::Invalid } else { GtSpec::Valid };
-            Some(RoundSpec { via_thread: false, inject_conflict: false, peer_own: false, peer_block: false, fork: false, items2: vec![], items: plain_items, gt, gap: big, label: if gt == GtSpec::Invalid { "invalid-golden-ticket".to_string() } else { "warm-up".to_string() } })
+            Some(RoundSpec { inject_aged: false, via_thread: false, inject_conflict: false, peer_own: false, peer_block: false, fork: false, items2: vec![], items: plain_items, gt, gap: big, label: if gt == GtSpec::Invalid { "invalid-golden-ticket".to_string() } else { "warm-up".to_string() } })
         }
         // issuance-typed transaction in the pool
         2 => {
@@ -2244,7 +2263,7 @@ fn scripted_spec(rig: &Rig, plan: &Plan, round: usize) -> Option<RoundSpec> {
             if round == 2 {
                 items.push(Item::Issuance);
             }
-            Some(RoundSpec { via_thread: false, inject_conflict: false, peer_own: false, peer_block: false, fork: false, items2: vec![], items, gt: if round % 2 == 1 { GtSpec::Valid } else { GtSpec::None }, gap: big, label: "issuance".to_string() })
+            Some(RoundSpec { inject_aged: false, via_thread: false, inject_conflict: false, peer_own: false, peer_block: false, fork: false, items2: vec![], items, gt: if round % 2 == 1 { GtSpec::Valid } else { GtSpec::None }, gap: big, label: "issuance".to_string() })
         }
         // timestamp not after the tip's (bundle_block must decline, not panic)
         3 => {
@@ -2253,7 +2272,7 @@ fn scripted_spec(rig: &Rig, plan: &Plan, round: usize) -> Option<RoundSpec> {
                 3 => -1000,
                 _ => big,
             };
-            Some(RoundSpec { via_thread: false, inject_conflict: false, peer_own: false, peer_block: false, fork: false, items2: vec![], items: plain_items, gt: if round % 2 == 1 { GtSpec::Valid } else { GtSpec::None }, gap, label: "timestamp-order".to_string() })
+            Some(RoundSpec { inject_aged: false, via_thread: false, inject_conflict: false, peer_own: false, peer_block: false, fork: false, items2: vec![], items: plain_items, gt: if round % 2 == 1 { GtSpec::Valid } else { GtSpec::None }, gap, label: "timestamp-order".to_string() })
         }
         // a pooled transaction spends an output that the next block rebroadcasts
         4 => {
@@ -2261,17 +2280,17 @@ fn scripted_spec(rig: &Rig, plan: &Plan, round: usize) -> Option<RoundSpec> {
             if rig.rebroadcast_source() > 0 && round % 3 == 0 {
                 items.push(Item::Clash { payer: 5, fee: 500 });
             }
-            Some(RoundSpec { via_thread: false, inject_conflict: false, peer_own: false, peer_block: false, fork: false, items2: vec![], items, gt: if round % 2 == 1 { GtSpec::Valid } else { GtSpec::None }, gap: big, label: "rebroadcast-clash".to_string() })
+            Some(RoundSpec { inject_aged: false, via_thread: false, inject_conflict: false, peer_own: false, peer_block: false, fork: false, items2: vec![], items, gt: if round % 2 == 1 { GtSpec::Valid } else { GtSpec::None }, gap: big, label: "rebroadcast-clash".to_string() })
         }
         // staking on, window of 3: the producer's own staking transaction
-        5 => Some(RoundSpec { via_thread: false, inject_conflict: false, peer_own: false, peer_block: false, fork: false, items2: vec![], items: plain_items, gt: if round % 2 == 1 { GtSpec::Valid } else { GtSpec::None }, gap: big, label: "staking".to_string() }),
+        5 => Some(RoundSpec { inject_aged: false, via_thread: false, inject_conflict: false, peer_own: false, peer_block: false, fork: false, items2: vec![], items: plain_items, gt: if round % 2 == 1 { GtSpec::Valid } else { GtSpec::None }, gap: big, label: "staking".to_string() }),
         // staking on, BlockStake-typed transaction from a peer
         6 => {
             let mut items = plain_items;
             if round == 2 {
                 items.push(Item::ForeignStake { payer: 5 });
             }
-            Some(RoundSpec { via_thread: false, inject_conflict: false, peer_own: false, peer_block: false, fork: false, items2: vec![], items, gt: if round % 2 == 1 { GtSpec::Valid } else { GtSpec::None }, gap: big, label: "foreign-stake".to_string() })
+            Some(RoundSpec { inject_aged: false, via_thread: false, inject_conflict: false, peer_own: false, peer_block: false, fork: false, items2: vec![], items, gt: if round % 2 == 1 { GtSpec::Valid } else { GtSpec::None }, gap: big, label: "foreign-stake".to_string() })
         }
         // somebody else's block empties the pool, then a transaction with little work arrives and the
         // producer is polled inside the work-gated window
@@ -2283,6 +2302,7 @@ fn scripted_spec(rig: &Rig, plan: &Plan, round: usize) -> Option<RoundSpec> {
                     peer_own: false,
                     inject_conflict: false,
                     via_thread: false,
+                    inject_aged: false,
                     fork: false,
                     items2: vec![Item::Transfer { payer: 4, fee: 30, hops: 1, biggest: false }],
                     gt: GtSpec::None,
@@ -2290,7 +2310,7 @@ fn scripted_spec(rig: &Rig, plan: &Plan, round: usize) -> Option<RoundSpec> {
                     label: "peer-block-empties-pool".to_string(),
                 })
             } else {
-                Some(RoundSpec { via_thread: false, inject_conflict: false, peer_own: false, peer_block: false, fork: false, items2: vec![], items: plain_items, gt: if round % 2 == 1 { GtSpec::Valid } else { GtSpec::None }, gap: big, label: "warm-up".to_string() })
+                Some(RoundSpec { inject_aged: false, via_thread: false, inject_conflict: false, peer_own: false, peer_block: false, fork: false, items2: vec![], items: plain_items, gt: if round % 2 == 1 { GtSpec::Valid } else { GtSpec::None }, gap: big, label: "warm-up".to_string() })
             }
         }
         // a reorganisation whose FIRST block spends the input of a pooled transaction
@@ -2302,6 +2322,7 @@ fn scripted_spec(rig: &Rig, plan: &Plan, round: usize) -> Option<RoundSpec> {
                     peer_own: false,
                     inject_conflict: false,
                     via_thread: false,
+                    inject_aged: false,
                     fork: true,
                     items2: vec![Item::Transfer { payer: 2, fee: 300, hops: 1, biggest: false }],
                     gt: GtSpec::Valid,
@@ -2309,7 +2330,7 @@ fn scripted_spec(rig: &Rig, plan: &Plan, round: usize) -> Option<RoundSpec> {
                     label: "fork-invalidates-pooled-tx".to_string(),
                 })
             } else {
-                Some(RoundSpec { via_thread: false, inject_conflict: false, peer_own: false, peer_block: false, fork: false, items2: vec![], items: plain_items, gt: if round % 2 == 1 { GtSpec::Valid } else { GtSpec::None }, gap: big, label: "warm-up".to_string() })
+                Some(RoundSpec { inject_aged: false, via_thread: false, inject_conflict: false, peer_own: false, peer_block: false, fork: false, items2: vec![], items: plain_items, gt: if round % 2 == 1 { GtSpec::Valid } else { GtSpec::None }, gap: big, label: "warm-up".to_string() })
             }
         }
         // the only routing work of the pool sits in a transaction whose input leaves the window while
@@ -2317,9 +2338,9 @@ fn scripted_spec(rig: &Rig, plan: &Plan, round: usize) -> Option<RoundSpec> {
         10 => {
             if tip.id + 1 > plan.gp + 1 && round % 2 == 0 {
                 let items = vec![Item::EdgeSpend { payer: 2, fee: 60_000, dust: false }, Item::Transfer { payer: 4, fee: 0, hops: 0, biggest: false }];
-                Some(RoundSpec { via_thread: false, inject_conflict: false, peer_own: true, peer_block: false, fork: false, items2: vec![], items, gt: GtSpec::None, gap: (hb + hb / 2) as i64, label: "pooled-input-ages-and-carried-the-work".to_string() })
+                Some(RoundSpec { inject_aged: false, via_thread: false, inject_conflict: false, peer_own: true, peer_block: false, fork: false, items2: vec![], items, gt: GtSpec::None, gap: (hb + hb / 2) as i64, label: "pooled-input-ages-and-carried-the-work".to_string() })
             } else {
-                Some(RoundSpec { via_thread: false, inject_conflict: false, peer_own: false, peer_block: false, fork: false, items2: vec![], items: plain_items, gt: if round % 2 == 1 { GtSpec::Valid } else { GtSpec::None }, gap: big, label: "warm-up".to_string() })
+                Some(RoundSpec { inject_aged: false, via_thread: false, inject_conflict: false, peer_own: false, peer_block: false, fork: false, items2: vec![], items: plain_items, gt: if round % 2 == 1 { GtSpec::Valid } else { GtSpec::None }, gap: big, label: "warm-up".to_string() })
             }
         }
         // a tiny output is spent by a transaction that is still pooled when the output leaves the window
@@ -2328,16 +2349,16 @@ fn scripted_spec(rig: &Rig, plan: &Plan, round: usize) -> Option<RoundSpec> {
             items.push(Item::MakeDust { payer: 5 });
             if tip.id + 1 > plan.gp + 2 && round % 3 == 0 {
                 items.push(Item::EdgeSpend { payer: 5, fee: 10, dust: true });
-                Some(RoundSpec { via_thread: false, inject_conflict: false, peer_own: true, peer_block: false, fork: false, items2: vec![], items, gt: GtSpec::None, gap: big, label: "pooled-dust-input-ages".to_string() })
+                Some(RoundSpec { inject_aged: false, via_thread: false, inject_conflict: false, peer_own: true, peer_block: false, fork: false, items2: vec![], items, gt: GtSpec::None, gap: big, label: "pooled-dust-input-ages".to_string() })
             } else {
-                Some(RoundSpec { via_thread: false, inject_conflict: false, peer_own: false, peer_block: false, fork: false, items2: vec![], items, gt: if round % 2 == 1 { GtSpec::Valid } else { GtSpec::None }, gap: big, label: "warm-up".to_string() })
+                Some(RoundSpec { inject_aged: false, via_thread: false, inject_conflict: false, peer_own: false, peer_block: false, fork: false, items2: vec![], items, gt: if round % 2 == 1 { GtSpec::Valid } else { GtSpec::None }, gap: big, label: "warm-up".to_string() })
             }
         }
         // a double spend inside the pool (injected past the intake): Block::create must fail and
         // hand the pool back
         15 => {
             let inject = round == 2 || round == 5;
-            Some(RoundSpec { via_thread: false, inject_conflict: inject, peer_own: false, peer_block: false, fork: false, items2: vec![], items: plain_items, gt: if round % 2 == 1 { GtSpec::Valid } else { GtSpec::None }, gap: big, label: if inject { "double-spend-in-pool".to_string() } else { "warm-up".to_string() } })
+            Some(RoundSpec { inject_aged: false, via_thread: false, inject_conflict: inject, peer_own: false, peer_block: false, fork: false, items2: vec![], items: plain_items, gt: if round % 2 == 1 { GtSpec::Valid } else { GtSpec::None }, gap: big, label: if inject { "double-spend-in-pool".to_string() } else { "warm-up".to_string() } })
         }
         // every round through the ConsensusThread (events + timer), gaps on both sides of the work gate
         16 => {
@@ -2351,16 +2372,16 @@ fn scripted_spec(rig: &Rig, plan: &Plan, round: usize) -> Option<RoundSpec> {
             if round == 4 {
                 items.push(Item::Issuance);
             }
-            Some(RoundSpec { via_thread: true, inject_conflict: false, peer_own: false, peer_block: false, fork: false, items2: vec![], items, gt: if round % 2 == 1 { GtSpec::Valid } else if round == 6 { GtSpec::Invalid } else { GtSpec::None }, gap, label: "through-the-consensus-thread".to_string() })
+            Some(RoundSpec { inject_aged: false, via_thread: true, inject_conflict: false, peer_own: false, peer_block: false, fork: false, items2: vec![], items, gt: if round % 2 == 1 { GtSpec::Valid } else if round == 6 { GtSpec::Invalid } else { GtSpec::None }, gap, label: "through-the-consensus-thread".to_string() })
         }
         // a pooled transaction is left out by create (its input aged while another producer's block
         // arrived) and does NOT carry needed work: the block is built from the rest and must be valid
         18 => {
             if tip.id + 1 > plan.gp + 1 && round % 2 == 0 {
                 let items = vec![Item::EdgeSpend { payer: 2, fee: 7_000, dust: false }, Item::Transfer { payer: 4, fee: 300, hops: 1, biggest: false }];
-                Some(RoundSpec { via_thread: false, inject_conflict: false, peer_own: true, peer_block: false, fork: false, items2: vec![], items, gt: GtSpec::None, gap: big, label: "pooled-input-ages-and-is-left-out".to_string() })
+                Some(RoundSpec { inject_aged: false, via_thread: false, inject_conflict: false, peer_own: true, peer_block: false, fork: false, items2: vec![], items, gt: GtSpec::None, gap: big, label: "pooled-input-ages-and-is-left-out".to_string() })
             } else {
-                Some(RoundSpec { via_thread: false, inject_conflict: false, peer_own: false, peer_block: false, fork: false, items2: vec![], items: plain_items, gt: if round % 2 == 1 { GtSpec::Valid } else { GtSpec::None }, gap: big, label: "warm-up".to_string() })
+                Some(RoundSpec { inject_aged: false, via_thread: false, inject_conflict: false, peer_own: false, peer_block: false, fork: false, items2: vec![], items: plain_items, gt: if round % 2 == 1 { GtSpec::Valid } else { GtSpec::None }, gap: big, label: "warm-up".to_string() })
             }
         }
         // staking on: the producer stakes once, then the second node produces genesis_period blocks,
@@ -2368,15 +2389,20 @@ fn scripted_spec(rig: &Rig, plan: &Plan, round: usize) -> Option<RoundSpec> {
         19 => {
             let k = round % (plan.gp as usize + 2);
             if k >= 1 && k <= plan.gp as usize {
-                Some(RoundSpec { via_thread: false, inject_conflict: false, peer_own: true, peer_block: false, fork: false, items2: vec![], items: vec![], gt: GtSpec::None, gap: big, label: "idle-while-the-second-node-produces".to_string() })
+                Some(RoundSpec { inject_aged: false, via_thread: false, inject_conflict: false, peer_own: true, peer_block: false, fork: false, items2: vec![], items: vec![], gt: GtSpec::None, gap: big, label: "idle-while-the-second-node-produces".to_string() })
             } else {
-                Some(RoundSpec { via_thread: false, inject_conflict: false, peer_own: false, peer_block: false, fork: false, items2: vec![], items: plain_items, gt: GtSpec::Valid, gap: big, label: "producer-stakes".to_string() })
+                Some(RoundSpec { inject_aged: false, via_thread: false, inject_conflict: false, peer_own: false, peer_block: false, fork: false, items2: vec![], items: plain_items, gt: GtSpec::Valid, gap: big, label: "producer-stakes".to_string() })
             }
+        }
+        // the leave-out filter of Block::create, fed by injection (no real path reaches it any more)
+        20 => {
+            let inj = tip.id + 1 > plan.gp + 1 && round % 2 == 0;
+            Some(RoundSpec { inject_aged: inj, via_thread: false, inject_conflict: false, peer_own: false, peer_block: false, fork: false, items2: vec![], items: plain_items, gt: if round % 2 == 1 { GtSpec::Valid } else { GtSpec::None }, gap: big, label: if inj { "aged-spend-injected".to_string() } else { "warm-up".to_string() } })
         }
         // a ticket that solves the tip but names the all-zero key
         14 => {
             let gt = if round == 3 { GtSpec::ZeroKey } else if round % 2 == 1 { GtSpec::Valid } else { GtSpec::None };
-            Some(RoundSpec { via_thread: false, inject_conflict: false, peer_own: false, peer_block: false, fork: false, items2: vec![], items: plain_items, gt, gap: big, label: if round == 3 { "zero-key-ticket".to_string() } else { "warm-up".to_string() } })
+            Some(RoundSpec { inject_aged: false, via_thread: false, inject_conflict: false, peer_own: false, peer_block: false, fork: false, items2: vec![], items: plain_items, gt, gap: big, label: if round == 3 { "zero-key-ticket".to_string() } else { "warm-up".to_string() } })
         }
         // dust genesis: a payer spends a tiny output in the block in which it is due
         9 => {
@@ -2384,7 +2410,7 @@ fn scripted_spec(rig: &Rig, plan: &Plan, round: usize) -> Option<RoundSpec> {
             if rig.rebroadcast_source() == 1 {
                 items.push(Item::Clash { payer: 2, fee: 500 });
             }
-            Some(RoundSpec { via_thread: false, inject_conflict: false, peer_own: false, peer_block: false, fork: false, items2: vec![], items, gt: if round % 2 == 1 { GtSpec::Valid } else { GtSpec::None }, gap: big, label: "dust-spend".to_string() })
+            Some(RoundSpec { inject_aged: false, via_thread: false, inject_conflict: false, peer_own: false, peer_block: false, fork: false, items2: vec![], items, gt: if round % 2 == 1 { GtSpec::Valid } else { GtSpec::None }, gap: big, label: "dust-spend".to_string() })
         }
         // plain deep chain, work decided by the gate (gaps below two heartbeats)
         7 => {
@@ -2394,7 +2420,7 @@ fn scripted_spec(rig: &Rig, plan: &Plan, round: usize) -> Option<RoundSpec> {
                 2 => (2 * hb - 1) as i64,
                 _ => big,
             };
-            Some(RoundSpec { via_thread: false, inject_conflict: false, peer_own: false, peer_block: false, fork: false, items2: vec![], items: plain_items, gt: if round % 2 == 1 { GtSpec::Valid } else { GtSpec::None }, gap, label: "work-gated".to_string() })
+            Some(RoundSpec { inject_aged: false, via_thread: false, inject_conflict: false, peer_own: false, peer_block: false, fork: false, items2: vec![], items: plain_items, gt: if round % 2 == 1 { GtSpec::Valid } else { GtSpec::None }, gap, label: "work-gated".to_string() })
         }
         _ => None,
     }
@@ -2449,7 +2475,7 @@ fn run_scenario(plan: &Plan, debug: bool) -> ScenarioOut {
                 let mut recovered = false;
                 let mut last = res.outcome;
                 for k in 0..3 {
-                    let retry = RoundSpec { via_thread: false, inject_conflict: false, peer_own: false, peer_block: false, fork: false, items2: vec![], items: vec![], gt: GtSpec::None, gap: spec.gap.max(1) + 7 * (k + 1), label: format!("retry-{}", k + 1) };
+                    let retry = RoundSpec { inject_aged: false, via_thread: false, inject_conflict: false, peer_own: false, peer_block: false, fork: false, items2: vec![], items: vec![], gt: GtSpec::None, gap: spec.gap.max(1) + 7 * (k + 1), label: format!("retry-{}", k + 1) };
                     let r = rig.exec_round(&retry, &mut rng);
                     round += 1;
                     if !r.coq.is_empty() {
@@ -2472,11 +2498,7 @@ fn run_scenario(plan: &Plan, debug: bool) -> ScenarioOut {
                     let known: Vec<&'static str> = findings.iter().filter_map(|f| f.1).collect();
                     let what = format!("producer liveness: the own block was rejected and 3 further attempts ended {:?}", last);
                     if last == Outcome::Rejected || last == Outcome::Split {
-                        if known.contains(&K_ZEROGT) {
-                            findings.push((format!("{} -- the ticket naming the all-zero key passes bundle_block's screen every time", what), Some(K_ZEROGT)));
-                        } else {
-                            findings.push((what, None));
-                        }
+                        findings.push((what, None));
                     }
                     break;
                 }
@@ -2546,6 +2568,7 @@ fn main() {
         Plan { kind: 18, seed: 0, gp: 3, stake: 0, hb: 10_000, profile: 0, target_blocks: 12, adversarial: 0, thorough: false },
         Plan { kind: 19, seed: 0, gp: 3, stake: 50_000, hb: 10_000, profile: 0, target_blocks: 14, adversarial: 0, thorough: false },
         Plan { kind: 19, seed: 0, gp: 5, stake: 50_000, hb: 10_000, profile: 0, target_blocks: 16, adversarial: 0, thorough: false },
+        Plan { kind: 20, seed: 0, gp: 3, stake: 0, hb: 10_000, profile: 0, target_blocks: 12, adversarial: 0, thorough: false },
     ];
     for _ in 0..nrandom {
         let gp = *rng.pick(&[3u64, 3, 5, 5, 8, 8, 20]);
@@ -2599,7 +2622,7 @@ fn main() {
                 if o.nontrivial && distinct.insert(o.coq.clone()) {
                     summary.nontrivial += 1;
                 }
-                if summary.samples.len() < 3 && o.rounds > 3 && idx >= 21 {
+                if summary.samples.len() < 3 && o.rounds > 3 && idx >= 22 {
                     summary.samples.push(o.desc.clone());
                 }
                 summary.case_descs.push(o.desc);
